@@ -34,7 +34,7 @@ def main (args : List String) : IO UInt32 := do
   let stdin ← IO.getStdin
   let stdout ← IO.getStdout
   match args with
-  | ["api"] => loop stdin stdout ({} : ApiDrv.World) (ApiDrv.step nativeArith); return 0
+  | ["api"] => loop stdin stdout ({} : World) (ApiDrv.step nativeArith); return 0
   | ["mt"] => loop stdin stdout ({} : UtilDrv.MtState) (UtilDrv.mtStep nativeArith); return 0
   | ["rb"] => loop stdin stdout RB.Tree.nil (fun t l => if l.trimAscii.toString == "reset" then (RB.Tree.nil, "ok") else RB.rbStep t l); return 0
   | ["sobol"] => loop stdin stdout Sobol.State.empty Sobol.sobolStep; return 0
